@@ -3,11 +3,14 @@ package fsm
 import (
 	"fmt"
 	"os"
+	"sync"
 	"math/rand/v2"
 	"net/netip"
 	"strings"
 	"testing"
 	"time"
+
+	"github.com/jwhited/corebgp"
 
 	"verif/internal/hz"
 	"verif/internal/rt"
@@ -241,6 +244,9 @@ func bringReused(w *hz.World, ps hz.PeerSpec, st string, hold uint16) *sess {
 		return nil
 	}
 	w.Settle()
+	for i := 0; i < 20 && !mon.Up(); i++ {
+		w.Settle()
+	}
 	c1.Close()
 	c2 := w.WaitOut(2, time.Minute)
 	if c2 == nil {
@@ -263,9 +269,77 @@ func bringReused(w *hz.World, ps hz.PeerSpec, st string, hold uint16) *sess {
 	}
 	c2.SendKeepalive()
 	w.Settle()
+	for i := 0; i < 20 && !mon.Up(); i++ { // OnEstablished itself may take virtual time
+		w.Settle()
+	}
 	if !mon.Up() {
 		w.Violate("reuse setup: second session did not establish")
 		return nil
 	}
 	return s
+}
+
+// variety picks per-case variations that no property depends on but that
+// exercise different code paths: hold times (incl. 0 on either side), a reused
+// outbound fsm object, and callbacks that take a little virtual time so that
+// the reader goroutine runs ahead of the FSM.
+type variety struct {
+	LocalHold  int    // seconds, -1 = library default
+	RemoteHold uint16 // proposed by the remote
+	Reuse      bool   // outbound only
+	Slow       bool   // plugin callbacks sleep 0-3 virtual microseconds
+}
+
+func pickVariety(r *rand.Rand, dir string) variety {
+	return variety{
+		LocalHold:  []int{90, 90, 0, 30, -1}[r.IntN(5)],
+		RemoteHold: []uint16{90, 90, 0, 30}[r.IntN(4)],
+		Reuse:      dir == "out" && r.IntN(3) == 0,
+		Slow:       r.IntN(3) == 0,
+	}
+}
+
+// apply configures the peer spec; existing callbacks are wrapped, not replaced.
+func (v variety) apply(ps *hz.PeerSpec, seed uint64) {
+	ps.Hold = v.LocalHold
+	if !v.Slow {
+		return
+	}
+	sr := rand.New(rand.NewPCG(seed, 4711))
+	var mu sync.Mutex
+	nap := func() {
+		mu.Lock()
+		d := time.Duration(sr.IntN(3000))
+		mu.Unlock()
+		time.Sleep(d)
+	}
+	oe, oo, ou := ps.Cfg.OnEst, ps.Cfg.OnOpen, ps.Cfg.OnUpdate
+	ps.Cfg.OnEst = func(s *hz.Session) {
+		nap()
+		if oe != nil {
+			oe(s)
+		}
+	}
+	ps.Cfg.OnOpen = func(call int, rid netip.Addr, caps []corebgp.Capability) *corebgp.Notification {
+		nap()
+		if oo != nil {
+			return oo(call, rid, caps)
+		}
+		return nil
+	}
+	ps.Cfg.OnUpdate = func(s *hz.Session, idx int, body []byte) *corebgp.Notification {
+		nap()
+		if ou != nil {
+			return ou(s, idx, body)
+		}
+		return nil
+	}
+}
+
+// bringV is bring() honouring the variety.
+func bringV(w *hz.World, ps hz.PeerSpec, dir, st string, v variety) *sess {
+	if v.Reuse && dir == "out" {
+		return bringReused(w, ps, st, v.RemoteHold)
+	}
+	return bring(w, ps, dir, st, v.RemoteHold)
 }
